@@ -62,7 +62,19 @@ def zref(tz):
     return {"n": "?", "fo": 0}, type(tz).__module__.split(".")[0]
 
 
+class ObservedBaseException(Exception):
+    """wrapper the harness puts around a BaseException that is not an Exception (a Rust panic surfaces as
+    pyo3_runtime.PanicException), so that drivers can treat it like every other observed exception; it projects as
+    the ORIGINAL exception"""
+
+    def __init__(self, orig):
+        super().__init__(str(orig))
+        self.orig = orig
+
+
 def exc(e):
+    if isinstance(e, ObservedBaseException):
+        e = e.orig
     return {"k": "exc", "names": [c.__name__ for c in type(e).__mro__ if c is not object],
             "msg": cps(str(e)[:80].encode("ascii", "replace").decode())}
 
